@@ -92,7 +92,8 @@ func checkC01(r *evid.Run) {
 		if d.N%997 == 0 {
 			r.Sample(map[string]any{"doc": docString(d.Doc), "rows": d.ExpectText(concs[0])})
 		}
-		checkTextAccept(r, d, concs)
+		// ... and under one more branch-string set, taken in turn from all of them (empty, unequal, ruled, blank-tail, ...)
+		checkTextAccept(r, d, append(append([]*tok.Conc{}, concs...), tok.WithBranches(concs[0], d.N)))
 	})
 	sessionPhase(r) // Session.tla: the calls this property owns, after every other call of the alphabet
 	r.Set("exhaustive", true)
